@@ -114,6 +114,7 @@ class SVGDoc:
             raise UnsupportedSVG("gradient template href")
         units = el.get("gradientUnits", "objectBoundingBox")
         M = parse_transform(el.get("gradientTransform"))
+        gt = M if el.get("gradientTransform") else None
         if units == "objectBoundingBox":
             x0, y0, x1, y1 = path_bounds
             if x1 - x0 <= 0 or y1 - y0 <= 0:
@@ -154,7 +155,7 @@ class SVGDoc:
             y2_ = num(el.get("y2", "0%"), H)
             p0, p1 = (x1_, y1_), (x2_, y2_)
             p2 = (p0[0] - (p1[1] - p0[1]), p0[1] + (p1[0] - p0[0]))
-            return Grad("L", (p0, p1, p2), stops, ext, M, "svg")
+            return Grad("L", (p0, p1, p2), stops, ext, M, "svg", gt)
         if tag == "radialGradient":
             cx = num(el.get("cx", "50%"), W)
             cy = num(el.get("cy", "50%"), H)
@@ -162,7 +163,7 @@ class SVGDoc:
             fx = num(el.get("fx"), W) if el.get("fx") is not None else cx
             fy = num(el.get("fy"), H) if el.get("fy") is not None else cy
             fr = num(el.get("fr", "0"), D)
-            return Grad("R", ((fx, fy), fr, (cx, cy), r), stops, ext, M, "svg")
+            return Grad("R", ((fx, fy), fr, (cx, cy), r), stops, ext, M, "svg", gt)
         raise UnsupportedSVG("paint server %s" % tag)
 
     def _paint(self, fill, opacity, bounds, ctm):
@@ -177,8 +178,28 @@ class SVGDoc:
             return None
         return parse_color(fill, opacity)
 
-    def _leaf(self, pel, ctm, inh_fill, extra_opacity, norm, tag):
-        ptm = amul(ctm, parse_transform(pel.get("transform")))
+    ND = 0.0005  # half a unit in the third decimal: what the SVG writer's rounding may move a number by
+
+    def _qerr(self, local_segs, chain):
+        """Displacement allowed by 3-decimal rounding of path data and of every transform in the chain
+        (outermost first), first-order, in the coordinates after the whole chain."""
+        ext = 0.0
+        for c in local_segs:
+            for sg in c:
+                for p in sg[1:]:
+                    ext = max(ext, abs(p[0]) + abs(p[1]))
+        err = self.ND * 1.42  # the path's own coordinates
+        for T in reversed(chain):
+            n = anorm(T)
+            err = n * err + self.ND * 1.42 * (ext + 1.0)
+            ext = 1.42 * n * ext + abs(T[4]) + abs(T[5])
+        return err
+
+    def _leaf(self, pel, ctm, inh_fill, extra_opacity, norm, tag, chain=()):
+        own = parse_transform(pel.get("transform"))
+        if own != I:
+            chain = tuple(chain) + (own,)
+        ptm = amul(ctm, own)
         rp = RecordingPen()
         parse_path(pel.get("d") or "", rp)
         local = segments(rp.value)
@@ -197,9 +218,9 @@ class SVGDoc:
         if paint is None:
             return None
         segs = segments(rp.value, ptm)
-        return Leaf(segs, paint, norm, tag or pel.get("id"))
+        return Leaf(segs, paint, norm, tag or pel.get("id") or pel.getroottree().getpath(pel), self._qerr(local, chain))
 
-    def _walk(self, el, ctm, inh_fill, scope):
+    def _walk(self, el, ctm, inh_fill, scope, chain=()):
         out = []
         for ch in el:
             tag = localname(ch)
@@ -211,11 +232,12 @@ class SVGDoc:
                 for k in ch.attrib:
                     if k not in ("opacity", "transform", "id", "fill"):
                         raise UnsupportedSVG("g attribute %s" % k)
-                mm = amul(ctm, parse_transform(ch.get("transform")))
-                kids = self._walk(ch, mm, ch.get("fill", inh_fill), scope)
+                gt = parse_transform(ch.get("transform"))
+                mm = amul(ctm, gt)
+                kids = self._walk(ch, mm, ch.get("fill", inh_fill), scope, chain + (gt,) if gt != I else chain)
                 out.append(Group(float(ch.get("opacity", "1")), kids))
             elif tag == "path":
-                lf = self._leaf(ch, ctm, inh_fill, 1.0, 1.0, None)
+                lf = self._leaf(ch, ctm, inh_fill, 1.0, 1.0, None, chain)
                 if lf is not None:
                     out.append(lf)
             elif tag == "use":
@@ -236,9 +258,10 @@ class SVGDoc:
                         anc = anc.getparent()
                     if anc is not None and anc is not scope:
                         raise BadSVG("cross-glyph-use", "use %s under %s targets content of %s" % (href, scope.get("id"), anc.get("id")))
-                ut = parse_transform(ch.get("transform"))
-                ut = amul(ut, translate(float(ch.get("x", "0")), float(ch.get("y", "0"))))
-                lf = self._leaf(tgt, amul(ctm, ut), ch.get("fill", inh_fill), float(ch.get("opacity", "1")), anorm(ut), href[1:])
+                ut_attr = parse_transform(ch.get("transform"))
+                ut_xy = translate(float(ch.get("x", "0")), float(ch.get("y", "0")))
+                ut = amul(ut_attr, ut_xy)
+                lf = self._leaf(tgt, amul(ctm, ut), ch.get("fill", inh_fill), float(ch.get("opacity", "1")), anorm(ut), href[1:], chain + tuple(t for t in (ut_attr, ut_xy) if t != I))
                 if lf is not None:
                     out.append(lf)
             else:
@@ -259,7 +282,7 @@ class SVGDoc:
         tag = localname(g)
         if tag == "g":
             ctm = parse_transform(g.get("transform"))
-            kids = self._walk(g, ctm, g.get("fill"), g)
+            kids = self._walk(g, ctm, g.get("fill"), g, (ctm,) if ctm != I else ())
             return splice([Group(float(g.get("opacity", "1")), kids)])
         if tag == "path":
             lf = self._leaf(g, I, None, 1.0, 1.0, None)
